@@ -54,6 +54,7 @@ func runC19(c *kit.Ctx) {
 
 	// ---- R1 ---------------------------------------------------------------
 	c.StartRule("R1", "once-guarded close", 3)
+	connectionClosedWhicheverComesFirst(c)
 	lit, _ := onceLiteral(closeFn, closeOnce)
 	if lit == nil {
 		c.Bad(closeFn, "close-once", closeFn.Pos(), "Close no longer runs under closeOnce.Do: closing twice panics (close of closed channel)", "")
